@@ -91,8 +91,8 @@ PROPS = {
         level_note="Single-threaded histories with concurrent blocked queries (goroutines parked in Await*); lock-level interleavings are not controlled. "
                    "Order-dependent outcomes of multi-entry sets (Go map order) are accepted either way and the resulting state is learnt by probing.",
         runs={
-            "quick": [dict(test="TestC06Model", checks=5000, shards=4), dict(test="TestC06RealDeadliner", checks=6000), dict(test="TestC06ExpiryBurst", checks=400)],
-            "thorough": [dict(test="TestC06Model", checks=80000, shards=14, timeout=3000), dict(test="TestC06RealDeadliner", checks=200000, timeout=3000), dict(test="TestC06ExpiryBurst", checks=20000, timeout=3000)],
+            "quick": [dict(test="TestC06Model", checks=5000, shards=4), dict(test="TestC06RealDeadliner", checks=6000), dict(test="TestC06ExpiryBurst", checks=400), dict(test="TestC06ExpiryDuringStore", checks=3000)],
+            "thorough": [dict(test="TestC06Model", checks=80000, shards=14, timeout=3000), dict(test="TestC06RealDeadliner", checks=200000, timeout=3000), dict(test="TestC06ExpiryBurst", checks=20000, timeout=3000), dict(test="TestC06ExpiryDuringStore", checks=200000, shards=2, timeout=3000)],
         },
     ),
     "C18": dict(
